@@ -148,7 +148,7 @@ NOTE_BDD = ('Trusted: Coq kernel; extraction (ExtrOcamlBasic only) + ocamlopt; t
             'hand-written Gallina model of src/bdd.rs and the code is differential testing (exhaustive over the finite operand '
             'spaces named in the evidence, seeded random beyond), not proof. Diagrams are modelled as immutable trees '
             '(Rc sharing and the unique table are the subject of C13). '
-            'For C03, C04, C07 and C20 additionally a TIE BY TRANSLATION, re-derived on every run (lib/vlib/srcfun.py, trusted): not, and, or, exists_impl, model, retain_choice_bottom_up, implies, ite, eq, xor, nor, nand, all, var and infer are re-read from src/bdd.rs - match arms in source order, guards, let / if chains, compositions - emitted as Gallina functions and proved equal to the model functions for all operands (17 generated obligations src_<f>_ok / *_guards_total, the latter: the unsupported-match arm is unreachable); a source whose shape the reader does not recognise is noted, not reported.')
+            'For C03, C04, C05, C07 and C20 additionally a TIE BY TRANSLATION, re-derived on every run (lib/vlib/srcfun.py, trusted): not, and, or, exists_impl, exists, all, model, retain_choice_bottom_up, infer, implies, ite, eq, xor, nor, nand, var, cmp_count, aln, amn, exn, cmp_count_compare and the five list-against-list comparisons are re-read from src/bdd.rs - match arms in source order, guards, let / if chains, compositions, recursion over a slice - emitted as Gallina functions and proved equal to the model functions for all operands (28 generated obligations src_<f>_ok / *_guards_total, the latter: the unsupported-match arm is unreachable); a source whose shape the reader does not recognise is noted, not reported.')
 
 
 def _t(pid, text, note=NOTE_BDD, **kw):
@@ -244,7 +244,7 @@ PROPS['C08']['srctab'] = True
 PROPS['C15']['srcloops'] = 'queens'
 PROPS['C17']['srcloops'] = 'sudoku'
 # the connectives of src/bdd.rs are re-read from the source and proved equal to the model functions (lib/vlib/srcfun.py)
-for _p in ('C03', 'C04', 'C07', 'C20'):
+for _p in ('C03', 'C04', 'C05', 'C07', 'C20'):
     PROPS[_p]['srcfun'] = True
 PROPS['C01']['srctab'] = True
 
